@@ -1,12 +1,12 @@
 CONSTANTS
-  Threads = {"main", "p2", "tts0", "w0"}
+  Threads = {"main", "p2", "tts0"}
   Cfg = 0
   Prog = 0
   WorkerSet = {}
   Variant = "fixed"
   HTasks = {1, 2}
   MaxRun = 3
-  MaxTimeouts = 2
+  MaxTimeouts = 1
   OwnOrd = "acq_rel"
 INIT HInit4
 NEXT HNext
